@@ -409,6 +409,19 @@ func c20RunGroup(r *verifmc.Run, sys *c20Sys, g *c20Group, gi int, keys []*c20Ke
 				map[string]interface{}{"policy": m.s0, "encrypted_under": rep.s0, "attributes": keys[ki].asg.name, "format": format, "message_len": len(msg)})
 		}
 	}
+	// the three predicates must agree with the reference (hence with each other): first the policy itself
+	for ki, k := range keys {
+		if k == nil {
+			continue
+		}
+		var sat bool
+		if pn, w := verifmc.Try(func() { sat = g.pol.Satisfaction(k.asg.attrs) }); pn {
+			viol("Policy.Satisfaction", "panic:"+verifmc.PanicClass(w), fmt.Sprintf("Satisfaction of %q on {%s} panicked: %s", rep.s0, k.asg.name, w), nil)
+			continue
+		}
+		r.Eval(1)
+		judge("Policy.Satisfaction", "policy-object", ki, sat, "")
+	}
 	for _, c := range cts {
 		// without the key: extracted policy
 		var ex Policy
@@ -499,6 +512,8 @@ type c20CryptoSpace struct {
 	maxNot int
 	legacy func(gi int, g *c20Group) bool
 	rtKeys func(gi int, g *c20Group) bool
+	custom func() []*abe.Node // explicit formula list instead of kinds/leaves/maxNot
+	asgs   func() []c20Asg    // explicit assignments instead of labels x values
 }
 
 // TestVerifC20_crypto: the decryption iff, the key-less predicates, key round trips, both formats.
@@ -522,9 +537,9 @@ func TestVerifC20_crypto(t *testing.T) {
 		quarter := func(gi int, g *c20Group) bool { return gi%4 == 1 }
 		v12 := []string{"1", "2"}
 		spaces = []c20CryptoSpace{
-			{"ab", c20Kinds3, ab, c20Values, []int{1, 2}, 2, all, all},
-			{"abc", c20Kinds4, abc, v12, []int{1, 2}, 2, all, all},
-			{"ab3", c20Kinds3, ab, v12, []int{3}, 1, third, quarter},
+			{"ab", c20Kinds3, ab, c20Values, []int{1, 2}, 2, all, all, nil, nil},
+			{"abc", c20Kinds4, abc, v12, []int{1, 2}, 2, all, all, nil, nil},
+			{"ab3", c20Kinds3, ab, v12, []int{3}, 1, third, quarter, nil, nil},
 		}
 		r.Set("space", "ab: leaves<=2 over {a:1,a:2,b:1}, <=2 stacked negations per node, 16 assignments {a,b}->{absent,1,2,3}; abc: leaves<=2 over {a:1,a:2,b:1,c:1}, 27 assignments {a,b,c}->{absent,1,2}; "+
 			"ab3: 3 leaves over {a:1,a:2,b:1}, <=1 negation per node, 9 assignments; legacy format and round-tripped keys on every structure of ab and abc, on every 3rd / 4th structure of ab3")
@@ -532,14 +547,36 @@ func TestVerifC20_crypto(t *testing.T) {
 	} else {
 		some := func(gi int, g *c20Group) bool { return g.nLeaves == 1 || gi%6 == 0 }
 		some2 := func(gi int, g *c20Group) bool { return g.nLeaves == 1 || gi%6 == 1 }
-		spaces = []c20CryptoSpace{{"ab", c20Kinds3, ab, []string{"1", "2"}, []int{1, 2}, 2, some, some2}}
+		spaces = []c20CryptoSpace{{"ab", c20Kinds3, ab, []string{"1", "2"}, []int{1, 2}, 2, some, some2, nil, nil}}
 		r.Set("space", "ab: leaves<=2 over {a:1,a:2,b:1}, <=2 stacked negations per node, 9 assignments {a,b}->{absent,1,2}; legacy format and round-tripped keys on all 1-leaf and every 6th 2-leaf structure")
 		r.NotExhaustive("quick tier: formulas of <= 2 leaves over 3 leaf kinds only; legacy format on a declared sixth of the 2-leaf structures")
 	}
+	// both tiers: repeated labels with different values in every polarity combination, and unusual-but-legal attribute sets
+	none := func(int, *c20Group) bool { return false }
+	third := func(gi int, g *c20Group) bool { return gi%3 == 0 }
+	bk := c20ReservedLabel(t, sys)
+	r.Set("reserved_label_read_from_an_issued_key", bk)
+	spaces = append(spaces,
+		c20CryptoSpace{name: "rep", legacy: third, rtKeys: none, custom: func() []*abe.Node { return c20RepeatedLabelFormulas(r.Thorough()) },
+			asgs: func() []c20Asg {
+				if r.Thorough() {
+					return c20Assignments2([]string{"a", "b"}, [][]string{{"1", "2", "3", "4"}, {"1", "2"}})
+				}
+				return c20Assignments2([]string{"a", "b"}, [][]string{{"1", "2", "3"}, {"1"}})
+			}},
+		c20CryptoSpace{name: "odd", legacy: third, rtKeys: third, custom: c20OddFormulas, asgs: func() []c20Asg { return c20OddAssignments(bk) }})
 	for _, sp := range spaces {
-		asgs := c20Assignments(sp.labels, sp.values)
+		var asgs []c20Asg
+		if sp.asgs != nil {
+			asgs = sp.asgs()
+		} else {
+			asgs = c20Assignments(sp.labels, sp.values)
+		}
 		keys := c20Keys(r, sys, sp.name, asgs)
 		var forms []*abe.Node
+		if sp.custom != nil {
+			forms = sp.custom()
+		}
 		for _, n := range sp.leaves {
 			forms = append(forms, abe.All(n, sp.kinds, sp.maxNot)...)
 		}
@@ -558,6 +595,131 @@ func TestVerifC20_crypto(t *testing.T) {
 	r.RequireCounter("decryptions_refused", 100)
 	r.RequireCounter("ciphertexts_legacy_format", 6)
 	r.RequireCounter("decryptions_with_roundtripped_key", 10)
+	r.RequireCounter("structures_rep", 40)
+	r.RequireCounter("structures_odd", 20)
+}
+
+// c20Assignments2: every map labels[i] -> {absent} U values[i].
+func c20Assignments2(labels []string, values [][]string) []c20Asg {
+	maps := []map[string]string{{}}
+	for i, l := range labels {
+		var nx []map[string]string
+		for _, m := range maps {
+			nx = append(nx, m)
+			for _, v := range values[i] {
+				c := map[string]string{l: v}
+				for k, x := range m {
+					c[k] = x
+				}
+				nx = append(nx, c)
+			}
+		}
+		maps = nx
+	}
+	out := make([]c20Asg, len(maps))
+	for i, m := range maps {
+		out[i] = c20Asg{m: m, name: abe.AssignmentString(labels, m)}
+		out[i].attrs.FromMap(m)
+	}
+	return out
+}
+
+// c20RepeatedLabelFormulas: the SAME label in two (thorough: also three) leaves with different values, every polarity
+// combination (pos/pos, pos/not, not/pos, not/not), under and / or, both leaf orders, alone and beside a leaf on another label.
+func c20RepeatedLabelFormulas(thorough bool) []*abe.Node {
+	var out []*abe.Node
+	sg := func(n *abe.Node, neg bool) *abe.Node {
+		if neg {
+			return abe.N(n)
+		}
+		return n
+	}
+	ops := []func(x, y *abe.Node) *abe.Node{abe.A, abe.O}
+	for pol := 0; pol < 4; pol++ {
+		for _, op1 := range ops {
+			x, y := sg(abe.L("a", "1"), pol&1 != 0), sg(abe.L("a", "2"), pol&2 != 0)
+			out = append(out, op1(x, y), op1(y, x))
+			for _, op2 := range ops {
+				out = append(out, op2(op1(x, y), abe.L("b", "1")), op2(abe.L("b", "1"), op1(y, x)))
+			}
+		}
+	}
+	if thorough {
+		for pol := 0; pol < 8; pol++ {
+			x, y, z := sg(abe.L("a", "1"), pol&1 != 0), sg(abe.L("a", "2"), pol&2 != 0), sg(abe.L("a", "3"), pol&4 != 0)
+			for _, op1 := range ops {
+				for _, op2 := range ops {
+					out = append(out, op2(op1(x, y), z), op2(x, op1(y, z)))
+				}
+			}
+		}
+	}
+	return out
+}
+
+// c20ReservedLabel reads the label of the internal Boneh-Katz attribute out of a key issued for NO attributes
+// (marshalled key: len16 | attributes = count16, then len16 label, 33-byte attribute ...).
+func c20ReservedLabel(t testing.TB, sys *c20Sys) string {
+	var none Attributes
+	none.FromMap(map[string]string{})
+	k, err := sys.msk.KeyGen(verifmc.NewDetReader("c20/key/none"), none)
+	if err != nil {
+		t.Fatalf("KeyGen: %v", err)
+	}
+	b, err := k.MarshalBinary()
+	if err != nil {
+		t.Fatalf("MarshalBinary: %v", err)
+	}
+	ab, _, ok := c20Take(b, 2)
+	if !ok || len(ab) < 4 || binary.LittleEndian.Uint16(ab) != 1 {
+		t.Fatalf("harness: cannot locate the internal attribute in a key issued for no attributes")
+	}
+	label, _, ok := c20Take(ab[2:], 2)
+	if !ok || len(label) == 0 {
+		t.Fatalf("harness: cannot read the internal attribute label")
+	}
+	return string(label)
+}
+
+func c20OddFormulas() []*abe.Node {
+	kinds := []abe.LeafKind{{Label: "a", Value: "1"}, {Label: "b", Value: "1"}}
+	out := abe.AllSigned(1, kinds)
+	for _, f := range abe.AllSigned(2, kinds) {
+		if f.Kind != abe.Not { // the negated-root variants parse to structures already in the list
+			if l := abe.Leaves(f); l[0].Label != l[1].Label {
+				out = append(out, f)
+			}
+		}
+	}
+	return out
+}
+
+// c20OddAssignments: attribute sets that are legal for Attributes.FromMap but unusual: the reserved internal label (and a
+// near miss), the empty label, the empty value, labels differing only in case, long labels and values.
+func c20OddAssignments(reserved string) []c20Asg {
+	longL, longV := strings.Repeat("L", 300), strings.Repeat("v", 5000)
+	type nm struct {
+		name string
+		m    map[string]string
+	}
+	list := []nm{
+		{"a=1,b=1,<reserved>=x", map[string]string{"a": "1", "b": "1", reserved: "x"}},
+		{"a=2,<reserved>=1", map[string]string{"a": "2", reserved: "1"}},
+		{"<reserved>=x", map[string]string{reserved: "x"}},
+		{"a=1,b=1,<reserved minus last byte>=1", map[string]string{"a": "1", "b": "1", reserved[:len(reserved)-1]: "1"}},
+		{"a=<empty>,b=1", map[string]string{"a": "", "b": "1"}},
+		{"<empty label>=1,a=1", map[string]string{"": "1", "a": "1"}},
+		{"A=1,B=1", map[string]string{"A": "1", "B": "1"}},
+		{"a=1,A=2,b=2,B=1", map[string]string{"a": "1", "A": "2", "b": "2", "B": "1"}},
+		{"a=1,b=<5000 bytes>,<300-byte label>=1", map[string]string{"a": "1", "b": longV, longL: "1"}},
+		{"a=<5000 bytes>,b=1", map[string]string{"a": longV, "b": "1"}},
+	}
+	out := make([]c20Asg, len(list))
+	for i, x := range list {
+		out[i] = c20Asg{m: x.m, name: x.name}
+		out[i].attrs.FromMap(x.m)
+	}
+	return out
 }
 
 // c20KeyRoundTrips: public and system secret keys survive the binary round trip and still work.
